@@ -113,3 +113,39 @@ package astwalk
 //@   call FuncDeclVisitor.VisitFuncDecl requires @visited-declaration-is-this-one arg1 == cast(f.Decls[$i1], "*ast.FuncDecl")
 //@   loop 1 body @declaration-visited-iff-accepted emitted(visited) == old(emitted(visited)) + ite(typeIs(f.Decls[$i], "*ast.FuncDecl") && enterFuncSpec(w.visitor, cast(f.Decls[$i], "*ast.FuncDecl")), 1, 0)
 //@   ensures @all-declarations-examined enterFileSpec(w.visitor, f) ==> $i1 == len(f.Decls)
+
+// ---- type-expression walker: a type expression is handed to the visitor only through visit(), which consumes the
+// one-shot SkipChilds flag right after; so a flag set by one visit can never leak into the next visited node
+//@ func *.VisitTypeExpr
+//@   prop C13
+//@   emits visited(arg0)
+
+//@ func (*typeExprWalker).visit
+//@   prop C13 C03
+//@   nosafety
+//@   ensures @visit-consumes-the-flag emitted(visited) == old(emitted(visited)) + 1 && emitted(skipconsumed) == old(emitted(skipconsumed)) + 1
+
+//@ func (*typeExprWalker).walk
+//@   prop C13 C03
+//@   nosafety
+//@   dyncalls_frame ast.Inspect runs w.walk on sub-nodes; each such run keeps the balance by this very contract
+//@   ensures @every-visit-is-followed-by-consuming-the-flag emitted(visited) - old(emitted(visited)) == emitted(skipconsumed) - old(emitted(skipconsumed))
+//@   loop 1 invariant @balance-so-far emitted(visited) - old(emitted(visited)) == emitted(skipconsumed) - old(emitted(skipconsumed))
+
+//@ func (*typeExprWalker).inspectInner
+//@   prop C13 C03
+//@   nosafety
+//@   ensures @every-visit-is-followed-by-consuming-the-flag emitted(visited) - old(emitted(visited)) == emitted(skipconsumed) - old(emitted(skipconsumed))
+
+//@ func (*typeExprWalker).walkSignature
+//@   prop C13 C03
+//@   nosafety
+//@   ensures @every-visit-is-followed-by-consuming-the-flag emitted(visited) - old(emitted(visited)) == emitted(skipconsumed) - old(emitted(skipconsumed))
+//@   loop 1 invariant @balance-so-far emitted(visited) - old(emitted(visited)) == emitted(skipconsumed) - old(emitted(skipconsumed))
+//@   loop 2 invariant @balance-so-far emitted(visited) - old(emitted(visited)) == emitted(skipconsumed) - old(emitted(skipconsumed))
+
+//@ func (*typeExprWalker).WalkFile
+//@   prop C13 C03
+//@   nosafety
+//@   ensures @every-visit-is-followed-by-consuming-the-flag emitted(visited) - old(emitted(visited)) == emitted(skipconsumed) - old(emitted(skipconsumed))
+//@   loop 1 invariant @balance-so-far emitted(visited) - old(emitted(visited)) == emitted(skipconsumed) - old(emitted(skipconsumed))
